@@ -153,15 +153,21 @@ def push_value(node: AbbreviationNode, state: IndentWalkState):
         # NB: lines of a text node inside element are on the level of node itself
         inner = 0 if is_snippet(node) and state.parent else 1
         out.level += inner
+        # NB: all lines are the same value: its fields are numbered from the same base
+        field = state.field
+        next_field = field
         for i, line in enumerate(lines):
             out.push_newline(True)
             if before:
                 out.push(before)
+            state.field = field
             push_tokens(line, state)
+            next_field = max(next_field, state.field)
             if after:
                 out.push(' ' * (max_length - line_lengths[i]))
                 out.push(after)
 
+        state.field = next_field
         out.level -= inner
 
 def is_primary_attribute(attr: AbbreviationAttribute):
